@@ -860,7 +860,14 @@ class BasicZoneProcessor: public ZoneProcessor {
         basic::Transition& transition = mTransitions[i];
         const int16_t year = transition.yearTiny + LocalDate::kEpochYear;
 
-        if (transition.rule.isNull()) {
+        if (transition.rule.isNull()
+            || transition.era.zoneEra() != prevTransition->era.zoneEra()) {
+          // A transition into another ZoneEra is the latest prior rule of the
+          // new era shifted to the start of the year (see
+          // addTransitionsForYear() and addTransitionAfterYear()): like a
+          // simple transition it takes effect at {year, 1, 1}, not at the
+          // ON/AT fields of that rule.
+          //
           // If the transition is simple (has no named rule), then the
           // ZoneEra applies for the entire year (since BasicZoneProcessor
           // supports only whole year in the UNTIL field). The whole year UNTIL
